@@ -183,6 +183,13 @@ func scenario(cfg wl.Config, sp spec) *mc.Scenario {
 					case "S1", "S2":
 						out := enc.Payload('c', 0, a[1], 11)
 						_ = stream.MsgSend(&out, enc.Bytes{})
+					case "FL": // an explicit flush (of the still corked invoke, or of what manual flushing holds back)
+						if f, ok := stream.(interface{ RawFlush() error }); ok {
+							_ = f.RawFlush()
+						}
+					case "RV": // a receive: it starts with an implicit flush
+						var in []byte
+						_ = stream.MsgRecv(&in, enc.Bytes{})
 					case "CS":
 						_ = stream.CloseSend()
 					case "CL":
@@ -272,6 +279,13 @@ func basePlans(tier string) []mc.Plan {
 					b2 = []int{0, 1, 2}
 				}
 				ps = append(ps, mc.Plan{Scen: scenario(cfg, spec{side: "client", actors: c, stallAt: -1, early: true}), Bounds: b2, Split: len(b2) > 2})
+			}
+		}
+		// a flush (explicit, or the one a receive starts with) racing sends on the same stream: with the
+		// default writer buffer the invoke is still corked when the actors start
+		if cfg.WriterBuf == 0 {
+			for _, c := range [][]string{{"FL", "S1"}, {"S1", "FL"}, {"RV", "S1"}, {"FL", "S1", "S2"}, {"FL", "S1", "CL"}, {"RV", "S1", "NX"}, {"FL", "RV", "S1"}} {
+				ps = append(ps, mc.Plan{Scen: scenario(cfg, spec{side: "client", actors: c, stallAt: -1}), Bounds: []int{0, 1}})
 			}
 		}
 		// the peer terminates the stream while a send is between two of its transport writes (a writer
